@@ -246,6 +246,17 @@ def laws(d):
         for k, v in ex.items():
             if h2.get(name, {}).get(k) != v:
                 out.append(("mesh:reserialise:segment-header-extra", "%s.%s %r, was %r" % (name, k, h2.get(name, {}).get(k), v)))
+    # the pass-through mode (segments kept as the bytes they are, as an uploader does): parse + serialise reproduces every segment
+    try:
+        ser_raw = LLMeshSerializer(parse_segment_contents=False)
+        mesh_raw = se.BufferReader(d["endian"], w).read(ser_raw)
+        wr = se.BufferWriter(d["endian"])
+        wr.write(ser_raw, mesh_raw)
+        _h, segs_r, _sp, _st = split_container(wr.copy_buffer())
+        if set(segs_r) != set(d["segments"]) or any(not _np_eq(segs_r[n], raw) for n, raw in d["segments"].items()):
+            out.append(("mesh:pass-through-mode:differs", "parse + serialise with parse_segment_contents=False changes the segments"))
+    except Exception as e:
+        out.append(("mesh:pass-through-mode:raised:%s" % type(e).__name__, "parse + serialise with parse_segment_contents=False raised %r" % (e,)))
     # idempotence from here on (the repository's own law, generalised)
     try:
         mesh2 = se.BufferReader(d["endian"], w2).read(ser)
